@@ -25,21 +25,29 @@
      to one constant per track; RTP time stamps = time stamp at the clock rate
      within one tick; every ADTS header agrees with the AudioSpecificConfig.
    PROVED: per frame (c06_video_nals, c06_video_frame_ts, c06_video_message,
-     c06_adts_frames, c06_rtp_video / _aac / _raw) and over whole message
-     sequences with ANY observer (c06_stream_chains, c06_ts_timestamps,
-     c06_audio_frames, c06_patpmt_first, c06_ts_stream, c06_hls_concat,
-     c06_hls_group, c06_httpts_join, c06_observer_view, c06_rtsp_sdp_first).
-   MISSING LINKS: (1) the decomposition of each demultiplexed access unit of
-     c06_ts_stream into the published units is proved per frame
-     (c06_video_frame_ts / c06_video_message, c06_audio_frames + c06_audio_pes)
-     and not restated as one formula over the whole stream; (2) c06_hls_group is
-     about the model of the group's wiring (RemuxGroup.v, compared with the
-     real logic.Group by the c06.e2e op), the HTTP-TS subscriber part of that
-     model is compared, not specified; (3) the join-point
-     clause for HTTP-TS / RTSP consumers rests on C01/C02's fan-out theorems at
-     unit level and is not re-proved here on bytes; (4) the RTSP analysis phase
-     (which message triggers the SDP) is modelled and compared, the theorems
-     speak about the steady state. *)
+     c06_adts_frames, c06_rtp_video / _aac / _raw); over whole message sequences
+     with ANY observer (c06_stream_chains, c06_ts_timestamps, c06_audio_frames,
+     c06_patpmt_first, c06_ts_late_track_announced, c06_ts_stream,
+     c06_observer_view, c06_rtsp_sdp_first) and as ONE formula per track
+     (c06_ts_whole_stream: the demultiplexed stream = the frames of the video
+     walk / of a partition of the AAC frames over the published messages);
+     HLS inside the group at EVERY instant (c06_hls_group,
+     c06_hls_no_loss_every_instant, c06_hls_live_ok / _parsed /
+     _media_sequence every instant: C10's invariant lifted to the re-entrant
+     wiring); JOIN POINTS ON BYTES through the fan-out model the harness runs
+     (c06_httpts_any_join(_waiting): PAT/PMT in force, cached GOPs, then every
+     frame - consecutive frames of the publication from a boundary on, which
+     demultiplex per track to the remuxer's frames; c06_rtsp_any_join(_gate):
+     the SDP in force, then the remuxer's packets from PLAY / from the first
+     GOP-start packet on).
+   WHAT REMAINS OPEN: (1) an RTSP consumer's packets are tied to the published
+     units per message (c06_rtp_video / _aac / _raw) and to a tail of the
+     remuxer's packet stream (c06_rtsp_any_join), not restated as one formula
+     over the stream; (2) the RTSP analysis phase (which message triggers the
+     SDP) is modelled and compared, the theorems speak about the steady state;
+     a sequence header after it is the listed finding
+     C06-rtsp-late-sequence-header; (3) C10's c10_listed_segments_stay is not
+     lifted to the re-entrant wiring (the chain it needs is: RemuxHlsRunProofs). *)
 From Coq Require Import List NArith ZArith Bool Lia.
 From Lal Require Import Common.LBytes Common.Res Group.GroupMsg
   Codec.CodecBits Codec.CodecAac Codec.CodecAacProofs Codec.CodecAvcSeqHeader Codec.CodecNalFraming Codec.CodecNalFramingProofs
@@ -952,3 +960,70 @@ Proof.
   exists h. split; [exact Hh|]. rewrite Hw. cbn [fst app]. now rewrite parse_cb_outs.
 Qed.
 Print Assumptions c06_hls_no_loss_every_instant.
+
+(* ======================================================================== *)
+(* (9) THE WHOLE STREAM IN ONE FORMULA PER TRACK.  For a publication - any
+   messages with byte-string payloads, ANY observer, FlushAudio calls anywhere,
+   Dispose at the end, the probe filter drained - C09's reference demultiplexer
+   applied to all packets of the run returns
+     VIDEO  the frames [track_frames] makes of the video walk over the published
+            messages ([video_walk], NAL-unit level: one frame per NAL-unit
+            message with a non-empty plan, its buffer the rendering of the plan
+            c06_video_nals describes, parameter sets from the last sequence
+            header / in-band set), and
+     AUDIO  the frames [track_frames] makes of a partition of the published AAC
+            frames into PES packets ([aac_walk]; which partition depends on when
+            the observer asked for FlushAudio - every frame is in exactly one
+            group, in order),
+   each as the access unit [expected_units] spells out: PID, stream id, PTS / DTS
+   = 90 * (time stamp [+ composition offset]) rebased on the first frame of the
+   track on the 33-bit clock, + 63000, random-access mark = key flag, payload
+   byte for byte, continuous counters. *)
+From Lal Require Remux.RemuxVideoWalkProofs Remux.RemuxVideoRunProofs Remux.RemuxWholeStreamProofs.
+Module RVW := Lal.Remux.RemuxVideoWalkProofs.
+Module RWS := Lal.Remux.RemuxWholeStreamProofs.
+
+Theorem c06_ts_whole_stream : forall O (dec : O -> tsev -> bool) (app : O -> tsev -> list tsev -> O) (pp : O -> bytes -> O)
+    acts o x' o' outs,
+  run_actions O dec app pp remuxer_init o (acts ++ [ADispose]) = (x', o', outs) ->
+  fq_done (x_filter x') = true ->
+  Forall (fun m => bytes_ok (rm_payload m)) (msgs_of acts) -> Forall aac_only (msgs_of acts) ->
+  Forall (fun e => te_dts0 e <> max_u64) (ts_events outs) ->
+  demux_pid pid_video (ev_packets (ts_events outs))
+  = Some (expected_units 0 (RWS.track_frames false (snd (RVW.video_walk (msgs_of acts)))))
+  /\ exists groups,
+       snd (aac_walk (msgs_of acts)) = concat groups /\ Forall (fun g => g <> []) groups
+       /\ demux_pid pid_audio (ev_packets (ts_events outs))
+          = Some (expected_units 0 (RWS.track_frames true (map RWS.group_view groups))).
+Proof.
+  intros O dec app pp acts o x' o' outs H Hd Hm Ha Hmax.
+  assert (Hmsgs : msgs_of (acts ++ [ADispose]) = msgs_of acts) by (rewrite msgs_of_app; cbn; now rewrite app_nil_r).
+  assert (Hm' : Forall (fun m => bytes_ok (rm_payload m)) (msgs_of (acts ++ [ADispose]))) by now rewrite Hmsgs.
+  pose proof (c06_ts_stream O dec app pp _ o x' o' outs false H Hm') as Hv.
+  pose proof (c06_ts_stream O dec app pp _ o x' o' outs true H Hm') as Hau.
+  destruct (run_invariant O dec app pp _ o x' o' outs H) as (Hch & _ & _).
+  assert (Hmaxt : forall audio, Forall (fun e => te_dts0 e <> max_u64) (track_evs audio (ts_events outs))).
+  { intro audio. unfold track_evs. rewrite Forall_forall in *. intros e He. apply filter_In in He. apply Hmax, He. }
+  split.
+  - rewrite Hv. f_equal.
+    rewrite (RWS.expected_units_ext _ _ 0 (RWS.track_frames_of_evs _ _ false Hch (Hmaxt false))). f_equal. f_equal.
+    pose proof (RemuxVideoRunProofs.run_video_walk O dec app pp _ o x' o' outs H) as Hw.
+    unfold popped in Hw. rewrite Hd, Hmsgs in Hw. exact Hw.
+  - destruct (run_audio_complete O dec app pp acts o x' o' outs H Hd Ha) as (groups & G1 & G2 & G3 & G4).
+    exists groups. split; [exact G1|]. split; [exact G4|].
+    rewrite Hau. f_equal.
+    rewrite (RWS.expected_units_ext _ _ 0 (RWS.track_frames_of_evs _ _ true Hch (Hmaxt true))). f_equal. f_equal.
+    destruct Hch as (_ & _ & Hids). exact (RWS.audio_views _ groups Hids G2 G3).
+Qed.
+Print Assumptions c06_ts_whole_stream.
+
+(* non-vacuity of (9): the stream of c06_nonvacuous - the walk yields one video frame (AUD, SPS, PPS, IDR;
+   DTS0 = 90000, offset 40 ms, key) and the audio partition one PES of two frames *)
+Example c06_whole_stream_nonvacuous :
+  let ms := [f23_vsh; f23_ash; ex_key; ex_a1; ex_a2] in
+  (exists v, snd (RVW.video_walk ms) = [v]
+     /\ iterate_nalu_annexb (RVW.vv_raw v) = ([[9; 240]; [103; 100; 0; 31]; [104; 238]; [101; 136; 128]], None)
+     /\ RVW.vv_dts0 v = 90000 /\ RVW.vv_cts v = 40 /\ RVW.vv_key v = true
+     /\ f_dts (RWS.track_frame false 90000 v) = 0 /\ f_pts (RWS.track_frame false 90000 v) = 3600)
+  /\ length (snd (aac_walk ms)) = 2%nat.
+Proof. cbv zeta. split; [eexists; split; [vm_compute; reflexivity|repeat split; vm_compute; reflexivity]|vm_compute; reflexivity]. Qed.
